@@ -181,6 +181,8 @@ impl Clone for SampleStreamSource {
 
 impl SampleStreamSource {
     fn try_send_drop_oldest(&self, sample: MediaSample) -> MediaResult<()> {
+        #[cfg(rustrtc_verif)]
+        crate::verif_hooks::media::verif_yield(crate::verif_hooks::media::point::SRC_LOCK_PUSH);
         let _push_guard = self.push_lock.lock();
         #[cfg(rustrtc_verif)]
         crate::verif_hooks::media::verif_yield(crate::verif_hooks::media::point::SRC_LOAD_CLOSED);
@@ -275,6 +277,8 @@ impl SampleStreamSource {
                 actual: sample.kind(),
             });
         }
+        #[cfg(rustrtc_verif)]
+        crate::verif_hooks::media::verif_yield(crate::verif_hooks::media::point::SRC_LOCK_PUSH);
         let _push_guard = self.push_lock.lock();
         #[cfg(rustrtc_verif)]
         crate::verif_hooks::media::verif_yield(crate::verif_hooks::media::point::SRC_LOAD_CLOSED);
@@ -527,6 +531,8 @@ impl MediaStreamTrack for SampleStreamTrack {
         loop {
             // Created before the checks below: `notify_waiters` (close / stop) stores no permit,
             // so a notification racing with the checks must already have a `Notified` to wake.
+            #[cfg(rustrtc_verif)]
+            crate::verif_hooks::media::verif_yield(crate::verif_hooks::media::point::RECV_NEW_NOTIFIED);
             let notified = self.notify.notified();
             #[cfg(rustrtc_verif)]
             crate::verif_hooks::media::verif_yield(crate::verif_hooks::media::point::RECV_LOAD_ENDED);
@@ -540,13 +546,13 @@ impl MediaStreamTrack for SampleStreamTrack {
                 let _pop_guard = self.pop_lock.lock();
                 // Read before `pop`: once closed nothing more is pushed, so an empty queue seen
                 // afterwards is final (reading it after `pop` could miss the last samples).
+                #[cfg(rustrtc_verif)]
+                crate::verif_hooks::media::verif_yield(crate::verif_hooks::media::point::RECV_LOAD_CLOSED);
                 let closed = self.source_closed.load(Ordering::Acquire);
                 if let Some(sample) = self.queue.pop() {
                     return Ok(sample);
                 }
 
-                #[cfg(rustrtc_verif)]
-                crate::verif_hooks::media::verif_yield(crate::verif_hooks::media::point::RECV_LOAD_CLOSED);
                 if closed {
                     #[cfg(rustrtc_verif)]
                     crate::verif_hooks::media::verif_yield(crate::verif_hooks::media::point::RECV_STORE_ENDED);
@@ -921,6 +927,16 @@ impl SampleStreamTrack {
 
 #[cfg(rustrtc_verif)]
 impl SampleStreamSource {
+    /// Verification hook: is the producer-side (`push`) lock currently held?
+    pub fn verif_push_locked(&self) -> bool {
+        self.push_lock.is_locked()
+    }
+
+    /// Verification hook: the producer-side lock (shared by every clone of this source).
+    pub fn verif_push_lock(&self) -> Arc<SyncMutex<()>> {
+        self.push_lock.clone()
+    }
+
     /// Verification hook: current `active_senders` count.
     pub fn verif_active_senders(&self) -> usize {
         self.active_senders.load(Ordering::SeqCst)
